@@ -364,3 +364,129 @@ Proof. reflexivity. Qed.                                         (* MinInt64 / -
 Example ex_data : data_get (data_set (data_zero 8) 3 7) 3 = 7 /\ data_get (data_zero 8) 9 = 0
                   /\ data_set (data_zero 8) 9 1 = data_zero 8.
 Proof. repeat split. Qed.
+
+(** * 6. byte slices written through (fourth round): the stores keep the length; encoding/binary *)
+Lemma list_splice_length n src b : length (list_splice n src b) = length b.
+Proof.
+  revert n src; induction b as [| h t IH]; intros [| n] src; cbn; auto.
+  destruct src; cbn; auto.
+Qed.
+Lemma list_splice_nil n b : list_splice n [] b = b.
+Proof. revert n; induction b as [| h t IH]; intros [| n]; cbn; auto. now rewrite IH. Qed.
+Lemma bytes_set_len b i v : bytes_len (bytes_set b i v) = bytes_len b.
+Proof. unfold bytes_len, bytes_set. now rewrite list_set_length. Qed.
+Lemma bytes_splice_len b lo src : bytes_len (bytes_splice b lo src) = bytes_len b.
+Proof. unfold bytes_len, bytes_splice. now rewrite list_splice_length. Qed.
+Lemma bytes_copy_at_len a lo hi src : bytes_len (bytes_copy_at a lo hi src) = bytes_len a.
+Proof. unfold bytes_copy_at. apply bytes_splice_len. Qed.
+Lemma binary_le_PutUint16_len b lo v : bytes_len (binary_le_PutUint16 b lo v) = bytes_len b.
+Proof. apply bytes_splice_len. Qed.
+Lemma binary_le_PutUint32_len b lo v : bytes_len (binary_le_PutUint32 b lo v) = bytes_len b.
+Proof. apply bytes_splice_len. Qed.
+Lemma binary_le_PutUint64_len b lo v : bytes_len (binary_le_PutUint64 b lo v) = bytes_len b.
+Proof. apply bytes_splice_len. Qed.
+
+(** [le_byte v k] is a byte, and the four of them are the little-endian digits of a uint32 *)
+Lemma le_byte_mod v k : 0 <= k -> le_byte v k = Z.shiftr v (8 * k) mod 256.
+Proof. intros Hk. unfold le_byte. change 255 with (Z.ones 8). rewrite Z.land_ones by lia. reflexivity. Qed.
+Lemma le_byte_range v k : 0 <= k -> in_u 8 (le_byte v k).
+Proof. intros Hk. rewrite le_byte_mod by exact Hk. unfold in_u. change (2 ^ 8) with 256. apply Z.mod_pos_bound. lia. Qed.
+Lemma binary_le_Uint32_Put b v : in_u 32 v -> (4 <= length b)%nat ->
+  binary_le_Uint32 (binary_le_PutUint32 b 0 v) = v.
+Proof.
+  intros Hv Hb. do 4 (destruct b as [| ? b]; [cbn in Hb; lia |]).
+  unfold binary_le_PutUint32, bytes_splice, le_bytes4. cbn [Z.to_nat list_splice binary_le_Uint32].
+  rewrite !le_byte_mod by lia. rewrite !Z.shiftr_div_pow2 by lia.
+  change (8 * 0) with 0. change (8 * 1) with 8. change (8 * 2) with 16. change (8 * 3) with 24.
+  change (2 ^ 0) with 1. change (2 ^ 8) with 256. change (2 ^ 16) with 65536. change (2 ^ 24) with 16777216.
+  unfold in_u in Hv. change (2 ^ 32) with 4294967296 in Hv.
+  Z.div_mod_to_equations. lia.
+Qed.
+Example ex_binary_le : binary_le_Uint32 [0x78; 0x56; 0x34; 0x12; 0xff] = 0x12345678
+  /\ binary_le_PutUint32 [1; 2; 3; 4; 5; 6] 1 0x12345678 = [1; 0x78; 0x56; 0x34; 0x12; 6]
+  /\ binary_le_Uint16 [0x34; 0x12] = 0x1234 /\ binary_le_Uint32 [1; 2; 3] = 0.
+Proof. repeat split. Qed.
+
+(** * 7. loops (fourth round): what [go_range] computes *)
+Lemma go_range_nil {A St R} (body : Z -> A -> St -> go_loop St R) i s : go_range body i [] s = LoopNext s.
+Proof. reflexivity. Qed.
+Lemma go_range_cons {A St R} (body : Z -> A -> St -> go_loop St R) i x l s :
+  go_range body i (x :: l) s =
+    match body i x s with LoopNext s' => go_range body (i + 1) l s' | LoopReturn r => LoopReturn r end.
+Proof. reflexivity. Qed.
+(** iterations are run in order; a return in the first part skips the second *)
+Lemma go_range_app {A St R} (body : Z -> A -> St -> go_loop St R) i l1 l2 s :
+  go_range body i (l1 ++ l2) s =
+    match go_range body i l1 s with
+    | LoopNext s' => go_range body (i + Z.of_nat (length l1)) l2 s'
+    | LoopReturn r => LoopReturn r
+    end.
+Proof.
+  revert i s. induction l1 as [| x l1 IH]; intros i s.
+  - cbn. now rewrite Z.add_0_r.
+  - cbn [app go_range length]. destruct (body i x s); [| reflexivity].
+    rewrite IH. replace (i + 1 + Z.of_nat (length l1)) with (i + Z.of_nat (S (length l1))) by lia. reflexivity.
+Qed.
+(** a body that never returns: the loop is the left fold of the state over (index, element) *)
+Lemma go_range_fold {A St R} (step : Z -> A -> St -> St) i l s :
+  go_range (fun i x s => @LoopNext St R (step i x s)) i l s =
+    LoopNext (snd (fold_left (fun '(i, s) x => (i + 1, step i x s)) l (i, s))).
+Proof. revert i s. induction l as [| x l IH]; intros i s; cbn; [reflexivity | apply IH]. Qed.
+(** a search loop [if p x { return f x }]: the first element satisfying p *)
+Lemma go_range_find {A St R} (p : A -> bool) (f : A -> R) i l (s : St) :
+  go_range (fun _ x s => if p x then LoopReturn (f x) else LoopNext s) i l s =
+    match find p l with Some x => LoopReturn (f x) | None => LoopNext s end.
+Proof. revert i. induction l as [| x l IH]; intros i; cbn; [reflexivity |]. destruct (p x); [reflexivity | apply IH]. Qed.
+Lemma go_iota_length n : length (go_iota n) = Z.to_nat n.
+Proof. apply repeat_length. Qed.
+Example ex_range_sum : go_range (fun i x s => if x =? 0 then @LoopReturn Z Z (- i) else LoopNext (s + x)) 0 [3; 4; 5] 0 = LoopNext 12
+  /\ go_range (fun i x s => if x =? 0 then @LoopReturn Z Z (- i) else LoopNext (s + x)) 0 [3; 0; 5] 0 = LoopReturn (-1)
+  /\ go_range (fun i _ s => @LoopNext Z Z (s + i)) 0 (go_iota 4) 0 = LoopNext 6.
+Proof. repeat split. Qed.
+Example ex_deref : go_deref 7 (Some 3) = 3 /\ go_deref 7 None = 7 /\ list_len [1; 2; 3] = 3.
+Proof. repeat split. Qed.
+
+(** * 8. range over a string: the first code point *)
+(** an ASCII byte is its own code point; every other first byte gives a code point >= 128 (RuneError
+    included) and a width of 1..4 *)
+Ltac boolprops := repeat match goal with
+  | H : _ && _ = true |- _ => apply andb_true_iff in H; destruct H
+  | H : (_ <=? _) = true |- _ => apply Z.leb_le in H
+  end.
+Lemma go_utf8_decode_cases b0 t :
+  (b0 < 128 /\ go_utf8_decode (b0 :: t) = (b0, 1))
+  \/ (128 <= b0 /\ exists r w, go_utf8_decode (b0 :: t) = (r, w) /\ 128 <= r /\ 1 <= w <= 4).
+Proof.
+  destruct (Z_lt_le_dec b0 128) as [Hl | Hg].
+  - left. split; [exact Hl |]. unfold go_utf8_decode. apply Z.ltb_lt in Hl. now rewrite Hl.
+  - right. split; [exact Hg |]. unfold go_utf8_decode, utf8_cont. cbv zeta.
+    assert (E : (b0 <? 128) = false) by (apply Z.ltb_ge; exact Hg). rewrite E.
+    destruct ((194 <=? b0) && (b0 <=? 223)) eqn:C2.
+    { destruct t as [| b1 t]; [eexists _, _; repeat split; lia |].
+      destruct ((128 <=? b1) && (b1 <=? 191)) eqn:C; [| eexists _, _; repeat split; lia].
+      eexists _, _. split; [reflexivity |]. split; [| lia]. boolprops. Z.div_mod_to_equations. lia. }
+    destruct ((224 <=? b0) && (b0 <=? 239)) eqn:C3.
+    { destruct t as [| b1 [| b2 t]]; try (eexists _, _; repeat split; lia).
+      destruct (Z.eqb_spec b0 224), (Z.eqb_spec b0 237);
+        (match goal with |- context [if ?c then _ else _] => destruct c eqn:C end; [| eexists _, _; repeat split; lia]);
+        (eexists _, _; split; [reflexivity |]; split; [| lia]; boolprops; Z.div_mod_to_equations; lia). }
+    destruct ((240 <=? b0) && (b0 <=? 244)) eqn:C4.
+    { destruct t as [| b1 [| b2 [| b3 t]]]; try (eexists _, _; repeat split; lia).
+      destruct (Z.eqb_spec b0 240), (Z.eqb_spec b0 244);
+        (match goal with |- context [if ?c then _ else _] => destruct c eqn:C end; [| eexists _, _; repeat split; lia]);
+        (eexists _, _; split; [reflexivity |]; split; [| lia]; boolprops; Z.div_mod_to_equations; lia). }
+    eexists _, _. repeat split; lia.
+Qed.
+Example ex_utf8 : go_utf8_decode [0x41; 0x42] = (0x41, 1) /\ go_utf8_decode [0xC3; 0xA9] = (0xE9, 2)
+  /\ go_utf8_decode [0xE2; 0x82; 0xAC] = (0x20AC, 3) /\ go_utf8_decode [0xF0; 0x9F; 0x98; 0x80] = (0x1F600, 4)
+  /\ go_utf8_decode [0xC0; 0x80] = (0xFFFD, 1) /\ go_utf8_decode [0xED; 0xA0; 0x80] = (0xFFFD, 1)
+  /\ go_utf8_decode [0xE2; 0x82] = (0xFFFD, 1) /\ go_utf8_decode [0xF4; 0x90; 0x80; 0x80] = (0xFFFD, 1).
+Proof. repeat split. Qed.
+Example ex_range_string :
+  go_range_string (fun i r s => @LoopNext (list (Z * Z)) unit (s ++ [(i, r)])) 0 [0x61; 0xC3; 0xA9; 0xFF; 0x62] []
+  = LoopNext [(0, 0x61); (1, 0xE9); (3, 0xFFFD); (4, 0x62)].
+Proof. reflexivity. Qed.
+Lemma go_utf8_decode_width b0 t : 1 <= snd (go_utf8_decode (b0 :: t)) <= 4.
+Proof.
+  destruct (go_utf8_decode_cases b0 t) as [[_ E] | [_ (r & w & E & _ & Hw)]]; rewrite E; cbn [snd]; lia.
+Qed.
